@@ -35,6 +35,53 @@ Theorem C12_merge_idempotent : C12_merge_idempotent_statement.
 Proof. exact merge_idempotent. Qed.
 Print Assumptions C12_merge_idempotent.
 
+(* MERGE with ON CREATE / ON MATCH items whose keys are disjoint from the pattern keys of the
+   statement (any number of rows): run twice, the second run creates nothing — count 0, the same
+   number of nodes, relationships and id counter untouched (ON MATCH items may still write) *)
+Definition C12_merge_on_items_statement : Prop :=
+  forall g rows,
+    on_items_disjoint rows -> (forall r, In r rows -> pattern_ok r) ->
+    match exec g (UMergeNode rows) with
+    | Done g1 _ =>
+        match exec g1 (UMergeNode rows) with
+        | Done g2 c2 => c2 = 0 /\ length (gn g2) = length (gn g1) /\ gr g2 = gr g1 /\ gnext g2 = gnext g1
+        | Failed => False
+        end
+    | Failed => False
+    end.
+Theorem C12_merge_on_items : C12_merge_on_items_statement.
+Proof. exact merge_on_creates_nothing_twice. Qed.
+Print Assumptions C12_merge_on_items.
+
+(* relationships have no identity in the storage: a relationship MERGE is NOT idempotent when the
+   rows of one statement merge different property maps on one (src,type,dst) — the later row
+   overwrites the shared map, so the repeated statement creates again (known finding
+   K-C12-relidentity).  Keys: node ids 0 -> 0, type 0; property 0 = 1, then 2. *)
+Definition w_relid : stmt := UMergeRel [((0, 0, 0), [(0, OInt 1)], [], []); ((0, 0, 0), [(0, OInt 2)], [], [])].
+Definition C12_merge_rel_refuted_statement : Prop :=
+  match exec g0 (UCreateNode [([], [])]) with
+  | Done g _ =>
+      match exec g w_relid with
+      | Done g1 c1 => c1 = 2 /\ match exec g1 w_relid with Done _ c2 => c2 = 1 | Failed => False end
+      | Failed => False
+      end
+  | Failed => False
+  end.
+Theorem C12_merge_rel_refuted : C12_merge_rel_refuted_statement.
+Proof. vm_compute. repeat split. Qed.
+Print Assumptions C12_merge_rel_refuted.
+
+(* chained clauses in one statement: SET n.k = v REMOVE n.k leaves what REMOVE n.k leaves *)
+Definition C12_chain_set_remove_statement : Prop :=
+  forall g id k v,
+    match exec g (UChain [USetProp [(id, k, v)]; URemoveProp [(id, k)]]), exec g (URemoveProp [(id, k)]) with
+    | Done g1 _, Done g2 _ => g1 = g2
+    | _, _ => False
+    end.
+Theorem C12_chain_set_remove : C12_chain_set_remove_statement.
+Proof. exact chain_set_then_remove. Qed.
+Print Assumptions C12_chain_set_remove.
+
 (* the reflexivity hypothesis is needed: a NaN pattern value never matches (known finding K-C12-mergenan) *)
 Definition C12_merge_nan_refuted_statement : Prop :=
   let nan := OFloat 9221120237041090560 in
